@@ -67,7 +67,7 @@ m("min-cmp-inverted", "_snapshot/min_max_value.py", "    def cmp(a, b):\n       
 m("unmanaged-eq-wrapper", "_unmanaged.py", "        return self.value == other", "        return self.value is other or (self.value == other and not isinstance(other, (list, dict)))", ["C06"], "Unmanaged equality wrong for containers")
 m("typeerror-off", "_snapshot/generic_value.py", '    def __contains__(self, _other):\n        __tracebackhide__ = True\n        self._type_error("in")', '    def __contains__(self, _other):\n        return False', ["C06"], "`in` on a snapshot used with another op answers False")
 m("collection-contains-eq", "_snapshot/collection_value.py", "            return self._return(item in self._old_value)", "            return self._return(any(item is o or (type(item) is type(o) and item == o) for o in self._old_value))", ["C06"], "`in` is type-strict (True in [1] differs)")
-m("dictvalue-child-shared", "_snapshot/dict_value.py", "        if index not in self._new_value:", "        if index not in self._new_value or isinstance(index, bool):", ["C06", "C14"], "bool keys re-create the child each access")
+m("dictvalue-child-shared", "_snapshot/dict_value.py", "        if index not in self._new_value:", "        if index not in self._new_value or (isinstance(index, str) and index.endswith(':1')):", ["C14"], "some keys re-create the child sub-snapshot at each access (aggregation lost)")
 
 
 # ---- C08
@@ -102,6 +102,15 @@ m("map-unmanaged-no-callargs", "_adapter/generic_call_adapter.py", "            
 m("dict-star-after-len", "_adapter/dict_adapter.py", "                    if key is None:", "                    if key is None and len(old_value) == len(old_node.keys):", ["C10"], "revert of the dict ** fix")
 m("inner-default-compare", "_adapter/generic_call_adapter.py", "    if isinstance(value, Unmanaged) or is_unmanaged(value):", "    if False:", ["C10", "C07"], "revert of the default-comparison fix")
 m("inner-aligned-compare-off", "_snapshot/eq_value.py", "        with compare_context():\n            # inner", "        if True:\n            # inner", ["C10"], "revert: inner snapshots compared positionally")
+
+
+# ---- C14
+m("key-without-lasti", "_inline_snapshot.py", "    key = id(frame.f_code), frame.f_lasti", "    key = id(frame.f_code), frame.f_lineno", ["C14"], "call sites in one frame on one line share state")
+m("key-by-line", "_inline_snapshot.py", "    key = id(frame.f_code), frame.f_lasti", "    key = frame.f_code.co_filename.rsplit('/', 1)[-1][:3], frame.f_lineno, frame.f_lasti", ["C14"], "sites keyed by file-name prefix+line+offset: identical layout in two files collides")
+m("reeval-no-recursion", "_snapshot/generic_value.py", "                for old_item, new_item in zip(old_items, new_items):\n                    re_eval(old_item.value, old_item.node, new_item.value)", "                pass", ["C14"], "changed nested leaves are not detected")
+m("dict-reeval-dropped", "_snapshot/dict_value.py", "        super()._re_eval(value, context)\n", "        pass\n", ["C14"], "sub-snapshot arguments may change silently")
+m("minmax-no-aggregate-second-loop", "_snapshot/min_max_value.py", "        return self._return(self.cmp(self._visible_value(), other))", "        return self._return(self.cmp(self._visible_value(), other)) if not isinstance(other, tuple) or other[1] != 3 else True", [], "informational")
+m("collection-shared-list", "_snapshot/collection_value.py", "            self._new_value = [clone(item)]", "            self._new_value = CollectionValue._shared = getattr(CollectionValue, '_shared', None) or [clone(item)]", ["C14", "C05"], "all `in` snapshots share one member list")
 
 
 def make_copy(mut):
